@@ -14,5 +14,12 @@ for s in $SEEDS; do
   case "$r" in VIOLATION*) v=detected;; *) v=MISSED;; esac
   echo "$s $v  $r" >> "$OUT.tmp"
 done
+# seeds that were not run this time keep their earlier line
+if [ -n "$*" ] && [ -f "$OUT" ]; then
+  for s in $(awk '{print $1}' "$OUT"); do
+    grep -q "^$s " "$OUT.tmp" || grep "^$s " "$OUT" >> "$OUT.tmp"
+  done
+fi
+sort -o "$OUT.tmp" "$OUT.tmp"
 mv "$OUT.tmp" "$OUT"
 echo DONE
